@@ -36,6 +36,34 @@ theorem dup_no_dp (st : State) (addr : String) (seq : BitVec 24) (r : Req) (env 
   | none => simp [hr] at ho
   | some m => simp [hr] at ho; subst ho; simp
 
+/-- **any number of duplicates**: however many copies of the request arrive inside the window — one, the retry count, or
+    many more — none is executed, each is answered with the same cached response, and the transaction is still there for
+    the next one (the requests may even differ in content: same source address and sequence number is what counts) -/
+theorem dups_replayed (addr : String) (seq : BitVec 24) (rx : Rx) (dups : List (Req × Env)) :
+    ∀ (st : State), alGet st.rx (addr, seq) = some rx →
+      (dups.foldl (fun (acc : State × List (List Out)) d =>
+          ((step acc.1 (.request addr seq d.1) d.2).1, acc.2 ++ [(step acc.1 (.request addr seq d.1) d.2).2])) (st, [])) =
+        (st, dups.map fun _ => match rx.rsp with
+                               | some m => [Out.send addr m]
+                               | none => []) := by
+  intro st h
+  suffices hgen : ∀ (outs : List (List Out)),
+      (dups.foldl (fun (acc : State × List (List Out)) d =>
+          ((step acc.1 (.request addr seq d.1) d.2).1, acc.2 ++ [(step acc.1 (.request addr seq d.1) d.2).2])) (st, outs)) =
+        (st, outs ++ dups.map fun _ => match rx.rsp with
+                               | some m => [Out.send addr m]
+                               | none => []) by
+    simpa using hgen []
+  induction dups with
+  | nil => intro outs; simp
+  | cons d ds ih =>
+    intro outs
+    simp only [List.foldl_cons, List.map_cons]
+    rw [dup_replayed st addr seq d.1 d.2 rx h]
+    simp only []
+    rw [ih]
+    simp [List.append_assoc]
+
 /-- different source address or different sequence number ⇒ different key: creating / answering / releasing the
     transaction of one request never changes what another key resolves to -/
 theorem no_confusion_set (rxs : List ((String × BitVec 24) × Rx)) (k k' : String × BitVec 24) (v : Rx) (h : k' ≠ k) :
